@@ -118,6 +118,44 @@ def js_result_buffer_rules(ck, rule, facts):
               "the receive buffer / flag offset of a fallible JS method is %s: when the error payload is larger than the success payload the flag is read inside the payload and the buffer is too small" % detail, C.loc(f))
 
 
+def js_receive_buffer_args(ck, rule, facts):
+    """`new DiplomatReceiveBuf(wasm, size, align, ..)`: the size / alignment spliced in are Layout::size() / Layout::align() of the returned type's layout,
+    combined at most by `max` (fallible: the larger payload) and `+ 1` (the flag) -- never clamped from above (`min`), never a constant."""
+    import flow
+    tool = facts.tool
+    f = next(iter(tool.fns_matching(r"::js::converter::.*::gen_c_to_js_for_return_type$")), None)
+    if f is None:
+        return
+    n_sites = 0
+    for g in C.fns_inl(tool, f, 1):
+        defs = flow.defs_of(g)
+        for m_ in C.walk(C.fn_body(g)):
+            if m_.get("k") != "macro" or "DiplomatReceiveBuf(wasm" not in (m_.get("src") or ""):
+                continue
+            canon = C.macro_fmt_canon(m_) or ""
+            mm = re.search(r"DiplomatReceiveBuf\(wasm,\s*\{([^{}]*)\},\s*\{([^{}]*)\}", canon)
+            if not mm:
+                ck.bad(rule, "js::receive-buffer/args", "cannot read the size / alignment arguments of `new DiplomatReceiveBuf(..)` (%s)" % canon[:80], C.loc(g, m_.get("ln")))
+                continue
+            n_sites += 1
+            locs = {nm: lid for nm, lid in C.free_locals(m_["inner"])}
+            for role, txt in (("size", mm.group(1)), ("align", mm.group(2))):
+                nm = txt.strip().split(":")[0]
+                d = defs.get(locs.get(nm))
+                init = d[1] if d and d[0] == "expr" else None
+                if init is None:
+                    ck.bad(rule, "js::receive-buffer/%s#%d" % (role, n_sites), "`%s` is not a local computed in %s" % (nm, g["name"]), C.loc(g, m_.get("ln")))
+                    continue
+                calls = [(x.get("m") or (C.callee(x) or "").split("::")[-1]) for x in C.walk(init) if x.get("k") in ("mcall", "call")]
+                reads = [c_ for c_ in calls if c_ == role]
+                clamps = [c_ for c_ in calls if c_ in ("min", "clamp", "saturating_sub", "next_power_of_two", "trailing_zeros")]
+                ck.expect(bool(reads) and not clamps, rule, "js::receive-buffer/%s#%d" % (role, n_sites), "from Layout::%s()" % role,
+                          "the %s given to `new DiplomatReceiveBuf(..)` is %s: it must be the returned type's Layout::%s() (an 8-aligned struct placed in a 4-aligned buffer is read through a "
+                          "misaligned typed array; a smaller buffer is overrun by the callee)" % (role, "clamped by " + clamps[0] if clamps else "not read from the layout", role), C.loc(g, m_.get("ln")))
+    if n_sites < 2:
+        ck.bad(rule, "js::receive-buffer/floor", "only %d `new DiplomatReceiveBuf(..)` sites found in gen_c_to_js_for_return_type (2 counted)" % n_sites)
+
+
 def _split_top(argstr):
     out, depth, cur, q = [], 0, "", None
     for ch in argstr:
@@ -733,4 +771,8 @@ def run(ck, facts):
     # ---------------- R7 readers used by the deref generator
     js_deref_rules(ck, "R7", facts)
     js_result_buffer_rules(ck, "R2", facts)
+    js_receive_buffer_args(ck, "R8", facts)
     js_runtime_call_rules(ck, "R8", facts)
+    # an enum-typed field is written as the enum object's ffiValue: the JS enum class indexes by discriminant only for 0..N-1 enums (C11.R2, C11.R1 for js)
+    import c11
+    c11.run(C.SubCheck(ck, "R7", "", ["R1", "R2"], key_re=r"^js[:/]"), facts)
